@@ -420,3 +420,50 @@ def build(entry, srcs):
     if entry['pick'] is not None:
         v = entry['pick'](v)
     return v
+
+
+# ---- methods of Table bound under another name than the function's own (a T1-style fact read off the source) ----------------
+EXPECTED_METHOD_ALIASES = {
+    ('petl/io/pandas.py', 'todf', 'todataframe'),
+    ('petl/transform/selects.py', 'eq', 'selecteq'), ('petl/transform/selects.py', 'ne', 'selectne'),
+    ('petl/transform/selects.py', 'lt', 'selectlt'), ('petl/transform/selects.py', 'le', 'selectle'),
+    ('petl/transform/selects.py', 'gt', 'selectgt'), ('petl/transform/selects.py', 'ge', 'selectge'),
+    ('petl/transform/selects.py', 'true', 'selecttrue'), ('petl/transform/selects.py', 'false', 'selectfalse'),
+    ('petl/transform/selects.py', 'none', 'selectnone'), ('petl/transform/selects.py', 'notnone', 'selectnotnone'),
+    ('petl/util/materialise.py', 'lol', 'listoflists'), ('petl/util/materialise.py', 'tot', 'tupleoftuples'),
+    ('petl/util/materialise.py', 'lot', 'listoftuples'), ('petl/util/materialise.py', 'tol', 'tupleoflists'),
+    ('petl/util/vis.py', '__repr__', '_table_repr'), ('petl/util/vis.py', '__str__', '_table_str'),
+    ('petl/util/vis.py', '__unicode__', '_table_str'), ('petl/util/vis.py', '_repr_html_', '_display_html'),
+}
+
+
+def method_aliases():
+    """(file, attribute, function) for every module-level `Table.<attribute> = <function>` whose two names differ."""
+    import ast
+    import glob
+    import os
+    from .core import REPO
+    out = set()
+    for f in sorted(glob.glob(os.path.join(REPO, 'petl', '**', '*.py'), recursive=True)):
+        rel = os.path.relpath(f, REPO)
+        if '/test/' in rel:
+            continue
+        try:
+            tree = ast.parse(open(f).read())
+        except SyntaxError:
+            out.add((rel, '?', 'unparsable'))
+            continue
+        for n in tree.body:
+            if (isinstance(n, ast.Assign) and len(n.targets) == 1 and isinstance(n.targets[0], ast.Attribute)
+                    and isinstance(n.targets[0].value, ast.Name) and n.targets[0].value.id == 'Table'):
+                v = n.value
+                nm = v.id if isinstance(v, ast.Name) else '<expr>'
+                if n.targets[0].attr != nm:
+                    out.add((rel, n.targets[0].attr, nm))
+    return out
+
+
+def method_alias_check():
+    got = method_aliases()
+    return ('static:method-bindings', got == EXPECTED_METHOD_ALIASES,
+            'Table methods bound to another function than expected: %s' % sorted(got ^ EXPECTED_METHOD_ALIASES))
